@@ -11,4 +11,5 @@ CONSTANTS
   Quick = FALSE
 INIT Init
 NEXT Next
+INVARIANT Emit
 CHECK_DEADLOCK FALSE
